@@ -59,6 +59,15 @@ _PAYLOAD_METHODS = ["add", "radd", "iadd", "sub", "rsub", "isub", "mul", "rmul",
                     "lshift", "and", "or", "ilshift", "eq", "ne", "lt", "le", "gt", "ge"]
 _ELEM_METHODS = ["add", "radd", "iadd", "sub", "rsub", "isub", "mul", "rmul", "imul", "ilshift",
                  "eq", "ne", "lt", "le", "gt", "ge"]
+_FIBER_FORMS = ["Fiber.+fiber", "Fiber.*fiber", "Fiber.+=fiber", "Fiber.*=fiber", "Fiber.+scalar", "scalar.+Fiber",
+                "Fiber.*scalar", "scalar.*Fiber", "Fiber.+=scalar", "Fiber.*=scalar"]
+_HISTORY_KINDS = ["savedpos", "savedpos-at", "lookup", "lookup-ref", "position", "walk", "imul", "iadd", "populate", "imul-s"]
+# operations run on operands whose saved search position is non-zero (per form), and history steps executed (per kind)
+_MIN_STATE = {f"stateful_ops:{w}": 200 for w in _FIBER_FORMS}
+_MIN_STATE.update({f"stateful_ops:{w}:depth2": 20 for w in _FIBER_FORMS[:4]})
+_MIN_STATE.update({f"history_steps:{h}": 200 for h in _HISTORY_KINDS})
+_MIN_STATE.update({"stateful_ops": 5000, "stateful_ops:left": 4000, "stateful_ops:right": 1000, "stateful_ops:kernel": 50,
+                   "history_steps_judged": 1500, "result_wellformed_checked": 10000})
 _MIN_CE = {f"ce:Payload.__{m}__": 10 for m in _PAYLOAD_METHODS}
 _MIN_CE.update({f"ce:CoordPayload.__{m}__": 10 for m in _ELEM_METHODS})
 
@@ -74,7 +83,14 @@ SPEC = {
              "leaf fibers over {0..3} under + * += *=, every 3-state fiber x scalar x shape/active-range variant under "
              "f+s s+f f*s s*f f+=s f*=s, random longer / empty / disjoint fibers with non-zero defaults, explicit "
              "defaults, declared shape wider than the active range, partitions made by splitUniform, tensor-owned roots, "
-             "depth-2 trees; (iii) kernel-style loops (dot product, z << (a & b) accumulate, element-wise loops over "
+             "depth-2 trees; fiber operands are fresh or carry a HISTORY of 1-3 earlier public operations on the same fiber "
+             "(setSavedPos to a valid position, shortcut lookups getPayload/getPayloadRef/getPosition with start_pos, an "
+             "iteration resumed at a start_pos, an earlier in-place product or sum with another fiber - judged like any other - "
+             "an earlier populate loop, an earlier f *= scalar) on either operand of every form; every 3-state left fiber over "
+             "{0..3} x every non-zero saved search position x every 2-state right fiber (fresh / at its last position) under "
+             "+ * += *= and x scalar under the six scalar forms; the expected result is computed from the raw lists read "
+             "after the history, and every result's stored coordinates must be strictly increasing; "
+             "(iii) kernel-style loops (dot product, z << (a & b) accumulate, element-wise loops over "
              "iterated elements; every element of one fiber against every element of another fiber and a positional "
              "zip walk of two fibers under + - * and the six comparisons, element-element, element-box and box-element; "
              "element op= element over a positional walk) with a raw-value oracle.  The icontract postconditions on the Payload/CoordPayload "
@@ -91,14 +107,15 @@ SPEC = {
                        "elem_pairs:same-coord": 1000, "elem_pairs:distinct-coords": 3000,
                        "elem_pairs:distinct-coords:equal-values": 300, "elem_single:coord-varied": 2000,
                        "kernel_element_pairs": 800, "kernel_element_pairs:distinct-coords": 600,
-                       "kernel_element_pairs:distinct-coords:equal-values": 60}, **_MIN_CE),
+                       "kernel_element_pairs:distinct-coords:equal-values": 60}, **_MIN_CE, **_MIN_STATE),
         "thorough": dict({"evaluations": 40000, "oracle_evals": 600000, "contract_evals": 400000,
                           "contract_evals:optable": 50000, "contract_evals:fiber": 100000,
                           "contract_evals:kernel": 20000, "fiber_ops_checked": 100000,
                           "elem_pairs:same-coord": 5000, "elem_pairs:distinct-coords": 15000,
                           "elem_pairs:distinct-coords:equal-values": 1000, "elem_single:coord-varied": 10000,
                           "kernel_element_pairs": 8000, "kernel_element_pairs:distinct-coords": 6000,
-                          "kernel_element_pairs:distinct-coords:equal-values": 600}, **_MIN_CE),
+                          "kernel_element_pairs:distinct-coords:equal-values": 600}, **_MIN_CE,
+                         **{k: 3 * v for k, v in _MIN_STATE.items()}),
     },
     "assumptions": [
         "fiber (+|+=) fiber: the right operand's leaf default is 0 - with a non-zero default the elementwise sum at coordinates absent from both operands (default+default) is not representable, and f+g / f+=g treat the right default differently at left-only coordinates",
@@ -123,6 +140,15 @@ SPEC = {
         "populate trace model asserts an authoritative shape; metrics themselves are C15's); kernel-style loops under "
         "Metrics collection use unowned operands (one common rank id, as the Metrics line model requires); the loops "
         "that iterate two fibers at once (element pairs, zip walks) run without Metrics collection",
+        "state left on a fiber operand by earlier public operations (saved search position and its statistics, explicit "
+        "default elements, an active range taken over by an earlier populate / f += g) is not content: the expected result "
+        "of an arithmetic form is the one computed from the operands' raw coordinate/payload lists as they are when the "
+        "form is applied; shortcut lookups in a history respect the documented start_pos precondition (the coordinate at "
+        "start_pos is <= the coordinate looked up) and setSavedPos is given valid positions only; format-U operands get no "
+        "history step that moves the active range (f += g, populate: a format-U fiber presents its active range, and what "
+        "populate does to it is C05's/C14's); in a depth-2 history an in-place step is skipped on a root without sub-fibers",
+        "a result (value-returning or in-place) must be a well-formed ordered fiber: stored coordinates strictly "
+        "increasing at every level - otherwise its content is not well defined (lookups bisect)",
         "depth-2 trees only for fiber-fiber forms with default 0 (scalar forms are leaf-only in the library's documentation); "
         "the left operand's root stores at least one sub-fiber (an unowned empty root cannot know that it is interior)",
     ],
@@ -405,6 +431,27 @@ def generate(rng, tier, shard, nshards, mon):
                                                "shape": shape, "active": active}, "s": s}
                 idx += 1
     mon.exhaustive["fiber-scalar-3state-n4"] = True
+    # the same small fibers with a saved search position other than the one a fresh fiber has: every 3-state left
+    # operand x every non-zero valid position; right operand 2-state (absent / value), fresh or at its last position
+    vecs2 = list(itertools.product((0, 2), repeat=4))
+    for va in vecs:
+        spec_a = _vec_spec(va, VA)
+        for k in range(1, len(spec_a)):
+            for vb in vecs2:
+                if idx % nshards == shard:
+                    b = {"build": "ctor", "spec": _vec_spec(vb, VB), "default": 0, "shape": [None, 4, 6][idx // nshards % 3]}
+                    if (idx // nshards) % 2:
+                        b["history"] = [["savedpos-at", 3]]
+                    yield {"kind": "ff", "a": {"build": "ctor", "spec": spec_a, "default": 0, "shape": b["shape"],
+                                               "history": [["savedpos-at", k]]}, "b": b}
+                idx += 1
+            for s in SCALARS:
+                if idx % nshards == shard:
+                    yield {"kind": "fs", "a": {"build": "ctor", "spec": spec_a, "default": 0,
+                                               "shape": [None, 4, 6][idx // nshards % 3], "active": None,
+                                               "history": [["savedpos-at", k]]}, "s": s}
+                idx += 1
+    mon.exhaustive["fiber-pairs-and-scalars-3state-n4-x-saved-position"] = True
     # random ---------------------------------------------------------------------------------------
     nrand = (6000 if tier == "quick" else 160000) // nshards
     for _ in range(nrand):
@@ -483,8 +530,46 @@ def _rand_leaf(rng, lo, hi, default, p_present=0.5, p_explicit=0.15, floats=True
     return out
 
 
+_RANGE_MOVING_OPS = ("iadd", "populate")
+
+
+def _rand_history(rng, ext):
+    """1-3 earlier public operations on the operand (see _apply_history)."""
+    out = []
+    for _ in range(rng.choice([1, 1, 2, 3])):
+        r = rng.random()
+        frac = round(rng.random(), 3)
+        if r < 0.20:
+            out.append(["savedpos", frac])
+        elif r < 0.40:
+            out.append([rng.choice(["lookup", "lookup", "lookup-ref", "position"]), rng.randrange(ext), frac])
+        elif r < 0.48:
+            out.append(["walk", frac])
+        elif r < 0.68:
+            out.append(["imul", _rand_leaf(rng, 0, ext, 0, 0.8, 0.1)])
+        elif r < 0.86:
+            out.append(["iadd", _rand_leaf(rng, 0, ext, 0, rng.choice([0.3, 0.6]), 0.1)])
+        elif r < 0.94:
+            out.append(["populate", _rand_leaf(rng, 0, ext, 0, 0.5, 0.0)])
+        else:
+            out.append(["imul-s", rng.choice([2, -1, 3])])
+    return out
+
+
 def _rand_fiber_desc(rng, ext, default, lo=0, hi=None):
-    """A JSON description of how to build one leaf operand."""
+    """A JSON description of how to build one leaf operand: construction + (in about 4 of 10) a history of earlier
+    public operations on it."""
+    desc = _rand_fresh_desc(rng, ext, default, lo, hi)
+    if rng.random() < 0.4:
+        desc["history"] = _rand_history(rng, ext)
+        if desc.get("fmt") == "U":
+            # a format-U fiber presents its ACTIVE RANGE; a populate (also the one inside f += g) takes the active range
+            # over from its right operand, which is populate's matter (C05/C14), not arithmetic's
+            desc["history"] = [h for h in desc["history"] if h[0] not in _RANGE_MOVING_OPS]
+    return desc
+
+
+def _rand_fresh_desc(rng, ext, default, lo=0, hi=None):
     hi = ext if hi is None else hi
     r = rng.random()
     dens = rng.choice([0.2, 0.5, 0.8, 1.0])
@@ -542,7 +627,20 @@ def _random_case(rng):
         a = _rand_tree2(rng, e)
         if not a:
             a = [[rng.randrange(e[0]), []]]     # an unowned empty root cannot know that it is interior
-        return {"kind": "tree2", "a": a, "b": _rand_tree2(rng, e)}
+        case = {"kind": "tree2", "a": a, "b": _rand_tree2(rng, e)}
+        for h in ("ha", "hb"):
+            if rng.random() < 0.35:         # state on the root fibers (the leaves are reached through them)
+                steps = []
+                for _ in range(rng.choice([1, 2])):
+                    r = rng.random()
+                    if r < 0.4:
+                        steps.append(["savedpos", round(rng.random(), 3)])
+                    elif r < 0.6:
+                        steps.append(["lookup", rng.randrange(e[0]), round(rng.random(), 3)])
+                    else:
+                        steps.append([rng.choice(["imul", "iadd"]), _rand_tree2(rng, e)])
+                case[h] = steps
+        return case
     k = rng.choice(["dot", "accumulate", "elements", "elements-inplace", "reduce",
                     "element-pairs", "element-pairs", "element-zip", "element-zip-inplace"])
     a, b = _rand_fiber_desc(rng, ext, 0), _rand_fiber_desc(rng, ext, 0)
@@ -574,8 +672,16 @@ def _rand_tree2(rng, e):
 # ------------------------------------------------------------------------------------------
 # building operands (through public constructors only)
 # ------------------------------------------------------------------------------------------
-def build_fiber(desc):
-    """-> (fiber, declared shape or None, keepalive)"""
+def build_fiber(desc, mon=None):
+    """-> (fiber, declared shape or None, keepalive).  The operand is built through public constructors and then
+    taken through desc["history"]: earlier public operations on the same fiber (see _apply_history)."""
+    f, shape, keep = _build_fresh(desc)
+    if desc.get("history"):
+        _apply_history(mon, f, desc["history"], desc.get("default", 0))
+    return f, shape, keep
+
+
+def _build_fresh(desc):
     spec = desc["spec"]
     coords = [c for c, _ in spec]
     pays = [p for _, p in spec]
@@ -629,6 +735,80 @@ def raw_points(f, prefix=()):
         else:
             out[prefix + (c,)] = val(p)
     return out
+
+
+# ------------------------------------------------------------------------------------------
+# operand history: earlier PUBLIC operations on the same fiber.  They leave state behind that is not part of
+# the fiber's content (the saved search position and its statistics, an active range taken over from an earlier
+# right operand, explicit default elements); the content of an arithmetic result must not depend on it.
+# ------------------------------------------------------------------------------------------
+def _pos_for(f, c, frac):
+    """A shortcut position that satisfies the documented precondition of start_pos for a lookup of coordinate c:
+    a position whose coordinate is <= c (chosen among them by frac), else 0."""
+    ok = [i for i, x in enumerate(f.coords) if x <= c]
+    return ok[min(int(frac * len(ok)), len(ok) - 1)] if ok else 0
+
+
+def _apply_history(mon, f, history, default, tree=False):
+    for step in history:
+        op = step[0]
+        n = len(f.coords)
+        mon.count("history_steps:" + op)
+        if op == "savedpos":                    # a shortcut position set by the client (any valid position)
+            f.setSavedPos(min(int(step[1] * n), n - 1) if n else 0)
+        elif op == "savedpos-at":
+            f.setSavedPos(min(step[1], n - 1) if n else 0)
+        elif op == "lookup":                    # shortcut lookups: they save the position they arrived at
+            f.getPayload(step[1], start_pos=_pos_for(f, step[1], step[2]))
+        elif op == "lookup-ref":                # (inserts an explicit default element when the coordinate is empty)
+            f.getPayloadRef(step[1], start_pos=_pos_for(f, step[1], step[2]))
+        elif op == "position":
+            f.getPosition(step[1], start_pos=_pos_for(f, step[1], step[2]))
+        elif op == "walk":                      # an iteration resumed from a shortcut position
+            if n:
+                for _ in f.iterOccupancy(tick=False, start_pos=min(int(step[1] * n), n - 1)):
+                    pass
+        elif op in ("imul", "iadd"):            # an earlier in-place product / sum with a fresh fiber
+            sym = "*" if op == "imul" else "+"
+            if tree:
+                if not any(isinstance(p, Fiber) for p in f.payloads):
+                    continue            # an unowned empty root cannot know that it is interior (see assumptions)
+                h = build_tree2(step[1])
+                _call(mon, f"Fiber.{sym}=fiber:depth2", lambda: (operator.imul if sym == "*" else operator.iadd)(f, h))
+            else:
+                h = Fiber([c for c, _ in step[1]], [v for _, v in step[1]])
+                _ff_once(mon, sym, True, f, h, default, 0, history_step=True)
+        elif op == "populate":                  # an earlier populate loop into the fiber
+            h = Fiber([c for c, _ in step[1]], [v for _, v in step[1]])
+
+            def loop(h=h):
+                for _, (ref, v) in f << h:
+                    ref <<= v
+            _call(mon, "populate-assign", loop)
+        elif op == "imul-s":
+            _call(mon, "Fiber.*=scalar", lambda: operator.imul(f, step[1]))
+        else:
+            raise ValueError(op)
+
+
+def _wellformed(f):
+    """Stored coordinates strictly increasing (an ordered fiber without duplicates), at every level."""
+    cs = f.coords
+    return all(x < y for x, y in zip(cs, cs[1:])) and all(_wellformed(p) for p in f.payloads if isinstance(p, Fiber))
+
+
+def _state_note(mon, what, *operands):
+    """Counts the operation as run on stateful operands when one of them carries a non-zero saved search position
+    (read through the public getter) and returns a text for the messages."""
+    pos = [x.getSavedPos() for x in operands]
+    if any(pos):
+        mon.count("stateful_ops")
+        mon.count("stateful_ops:" + what)
+        for side, p in zip(("left", "right"), pos):
+            if p:
+                mon.count("stateful_ops:" + side)
+        return f" [operand saved search positions {pos}]"
+    return ""
 
 
 # ------------------------------------------------------------------------------------------
@@ -784,7 +964,7 @@ def _nz(*defaults):
     return ":nonzero-default" if any(d != 0 for d in defaults) else ""
 
 
-def _judge_fiber(mon, what, res, expected, region, d_res, suffix=""):
+def _judge_fiber(mon, what, res, expected, region, d_res, suffix="", note=""):
     """Dense-view comparison.  expected: {coord: value} for the coordinates that must hold a value;
     every other coordinate must be empty (absent or holding d_res).  region(c) names the coordinate class."""
     mon.count("fiber_ops_checked")
@@ -792,7 +972,12 @@ def _judge_fiber(mon, what, res, expected, region, d_res, suffix=""):
         mon.check(False, f"{what}:result-not-fiber", f"{what} returned {type(res).__name__}")
         return False
     got, dup = raw_map(res)
-    if not mon.check(not dup, f"{what}:result-duplicate-coords", f"{what}: result stores a coordinate twice: {res.coords}"):
+    if not mon.check(not dup, f"{what}:result-duplicate-coords",
+                     f"{what}: result stores a coordinate twice: {res.coords}{note}"):
+        return False
+    mon.count("result_wellformed_checked")
+    if not mon.check(_wellformed(res), f"{what}:result-coords-not-increasing",
+                     f"{what}: the stored coordinates of the result are not strictly increasing: {res.coords}{note}"):
         return False
     bad = {}
     for c, e in expected.items():
@@ -812,7 +997,7 @@ def _judge_fiber(mon, what, res, expected, region, d_res, suffix=""):
         c, g, e = items[0]
         mon.violation(f"{what}:content:{reg}{suffix}",
                       f"{what}: at coordinate {c} ({reg}) the result holds {g!r}, expected {e!r} "
-                      f"({len(items)} such coordinates; result coords {res.coords})")
+                      f"({len(items)} such coordinates; result coords {res.coords}){note}")
     return ok
 
 
@@ -842,44 +1027,62 @@ def _in_shape(m, shape):
     return all(isinstance(c, int) and 0 <= c < shape for c in m)
 
 
+def _ff_once(mon, sym, inplace, a, b, da, db, met=False, history_step=False):
+    """One fiber o fiber operation on the operands AS THEY ARE NOW (whatever earlier operations left on them): the
+    expected dense view comes from their raw lists read just before.  -> None (not run / failed) or whether the
+    expected result is non-trivial."""
+    what = f"Fiber.{sym}{'=' if inplace else ''}fiber"
+    if not (_wellformed(a) and _wellformed(b)):
+        mon.count("skipped:operand-illformed-after-history")     # the operation that broke it has been reported
+        return None
+    suffix = _nz(da, db)
+    ma, _ = raw_map(a)
+    mb, _ = raw_map(b)
+    na, nb = _nonempty(ma, da), _nonempty(mb, db)
+    if sym == "+":
+        cs = na | nb
+        exp = {c: ma.get(c, da) + mb.get(c, db) for c in cs}
+    else:
+        cs = na & nb
+        exp = {c: ma[c] * mb[c] for c in cs}
+
+    def region(c, na=na, nb=nb):
+        return "both" if (c in na and c in nb) else "self-only" if c in na else "other-only" if c in nb else "neither"
+    note = _state_note(mon, what, a, b)
+    if history_step:
+        mon.count("history_steps_judged")
+    if inplace:
+        ok, res = _call(mon, what, lambda: (operator.iadd if sym == "+" else operator.imul)(a, b), met)
+        if not ok:
+            return None
+        mon.count("inplace_identity_checked")
+        mon.check(res is a, f"{what}:rebinds", f"{what} returned {type(res).__name__} instead of the updated fiber itself")
+        _judge_fiber(mon, what, a, exp, region, da, suffix, note)
+        mb2, _ = raw_map(b)
+        mon.check(mb2 == mb, f"{what}:other-operand-changed", f"{what} changed the right operand: {mb} -> {mb2}{note}")
+    else:
+        ok, res = _call(mon, what, lambda: (operator.add if sym == "+" else operator.mul)(a, b), met)
+        if not ok:
+            return None
+        _judge_fiber(mon, what, res, exp, region, da, suffix, note)
+        ma2, _ = raw_map(a)
+        mb2, _ = raw_map(b)
+        mon.check(ma2 == ma and mb2 == mb, f"{what}:operand-changed",
+                  f"{what} changed an operand: {ma} -> {ma2}, {mb} -> {mb2}{note}")
+    if not history_step:
+        mon.state((what, sorted(exp.items())))
+    return bool(ma and mb and any(v != da for v in exp.values()))
+
+
 def _run_ff(case, mon):
     da, db = case["a"].get("default", 0), case["b"].get("default", 0)
-    suffix = _nz(da, db)
     met = bool(case.get("metrics"))
     nontrivial = False
     for sym, inplace in (("+", False), ("*", False), ("+", True), ("*", True)):
-        a, _, ka = build_fiber(case["a"])
-        b, _, kb = build_fiber(case["b"])
-        ma, _ = raw_map(a)
-        mb, _ = raw_map(b)
-        na, nb = _nonempty(ma, da), _nonempty(mb, db)
-        if sym == "+":
-            cs = na | nb
-            exp = {c: ma.get(c, da) + mb.get(c, db) for c in cs}
-        else:
-            cs = na & nb
-            exp = {c: ma[c] * mb[c] for c in cs}
-
-        def region(c, na=na, nb=nb):
-            return "both" if (c in na and c in nb) else "self-only" if c in na else "other-only" if c in nb else "neither"
-        what = f"Fiber.{sym}{'=' if inplace else ''}fiber"
-        if inplace:
-            ok, res = _call(mon, what, lambda: (operator.iadd if sym == "+" else operator.imul)(a, b), met)
-            if not ok:
-                continue
-            mon.count("inplace_identity_checked")
-            mon.check(res is a, f"{what}:rebinds", f"{what} returned {type(res).__name__} instead of the updated fiber itself")
-            _judge_fiber(mon, what, a, exp, region, da, suffix)
-            mb2, _ = raw_map(b)
-            mon.check(mb2 == mb, f"{what}:other-operand-changed", f"{what} changed the right operand: {mb} -> {mb2}")
-        else:
-            ok, res = _call(mon, what, lambda: (operator.add if sym == "+" else operator.mul)(a, b), met)
-            if not ok:
-                continue
-            _judge_fiber(mon, what, res, exp, region, da, suffix)
-        if ma and mb and any(v != da for v in exp.values()):
+        a, _, ka = build_fiber(case["a"], mon)
+        b, _, kb = build_fiber(case["b"], mon)
+        if _ff_once(mon, sym, inplace, a, b, da, db, met):
             nontrivial = True
-        mon.state((what, sorted(exp.items())))
     if nontrivial:
         mon.nontrivial()
 
@@ -893,7 +1096,10 @@ def _run_fs(case, mon):
     forms = [("Fiber.+scalar", "+", "f+s"), ("scalar.+Fiber", "+", "s+f"), ("Fiber.*scalar", "*", "f*s"),
              ("scalar.*Fiber", "*", "s*f"), ("Fiber.+=scalar", "+", "f+=s"), ("Fiber.*=scalar", "*", "f*=s")]
     for what, sym, form in forms:
-        a, shape, keep = build_fiber(case["a"])
+        a, shape, keep = build_fiber(case["a"], mon)
+        if not _wellformed(a):
+            mon.count("skipped:operand-illformed-after-history")     # the operation that broke it has been reported
+            continue
         ma, _ = raw_map(a)
         if shape is None:
             shape = (max(ma) + 1) if ma else 0          # documented estimate
@@ -909,6 +1115,7 @@ def _run_fs(case, mon):
         def region(c, na=na):
             return "self-only" if c in na else "neither"
         sc = Payload(s) if case.get("boxed") else s          # a boxed scalar is a scalar too
+        note = _state_note(mon, what, a)
         if form == "f+s":
             ok, res = _call(mon, what, lambda: a + sc, met)
         elif form == "s+f":
@@ -928,11 +1135,11 @@ def _run_fs(case, mon):
         if form in ("f+=s", "f*=s"):
             mon.count("inplace_identity_checked")
             mon.check(res is a, f"{what}:rebinds", f"{what} returned {type(res).__name__} instead of the updated fiber itself")
-            _judge_fiber(mon, what, a, exp, region, da, suffix)
+            _judge_fiber(mon, what, a, exp, region, da, suffix, note)
         else:
-            _judge_fiber(mon, what, res, exp, region, da, suffix)
+            _judge_fiber(mon, what, res, exp, region, da, suffix, note)
             ma2, _ = raw_map(a)
-            mon.check(ma2 == ma, f"{what}:operand-changed", f"{what} changed its operand: {ma} -> {ma2}")
+            mon.check(ma2 == ma, f"{what}:operand-changed", f"{what} changed its operand: {ma} -> {ma2}{note}")
         if ma and any(v != da for v in exp.values()):
             nontrivial = True
         mon.state((what, s, sorted(exp.items())))
@@ -944,6 +1151,13 @@ def _run_tree2(case, mon):
     nontrivial = False
     for sym, inplace in (("+", False), ("*", False), ("+", True), ("*", True)):
         a, b = build_tree2(case["a"]), build_tree2(case["b"])
+        if case.get("ha"):
+            _apply_history(mon, a, case["ha"], 0, tree=True)
+        if case.get("hb"):
+            _apply_history(mon, b, case["hb"], 0, tree=True)
+        if not (_wellformed(a) and _wellformed(b)):
+            mon.count("skipped:operand-illformed-after-history")     # the operation that broke it has been reported
+            continue
         pa, pb = raw_points(a), raw_points(b)
         na = {p for p, v in pa.items() if v != 0}
         nb = {p for p, v in pb.items() if v != 0}
@@ -953,6 +1167,7 @@ def _run_tree2(case, mon):
             exp = {p: pa[p] * pb[p] for p in na & nb}
         exp = {p: v for p, v in exp.items() if v != 0}
         what = f"Fiber.{sym}{'=' if inplace else ''}fiber:depth2"
+        note = _state_note(mon, what, a, b)
         if inplace:
             ok, res = _call(mon, what, lambda: (operator.iadd if sym == "+" else operator.imul)(a, b))
             if not ok:
@@ -966,6 +1181,11 @@ def _run_tree2(case, mon):
         mon.count("fiber_ops_checked")
         if not mon.check(isinstance(res, Fiber), f"{what}:result-not-fiber", f"{what} returned {type(res).__name__}"):
             continue
+        mon.count("result_wellformed_checked")
+        if not mon.check(_wellformed(res), f"{what}:result-coords-not-increasing",
+                         f"{what}: the stored coordinates of the result are not strictly increasing at some level "
+                         f"(root coords {res.coords}){note}"):
+            continue
         got = {p: v for p, v in raw_points(res).items() if v != 0}
         bad = {}
         for p in set(got) | set(exp):
@@ -976,7 +1196,7 @@ def _run_tree2(case, mon):
             if reg in bad:
                 p, g, e = sorted(bad[reg])[0]
                 mon.violation(f"{what}:content:{reg}", f"{what}: at point {p} ({reg}) the result holds {g!r}, expected {e!r} "
-                                                       f"({len(bad[reg])} such points)")
+                                                       f"({len(bad[reg])} such points){note}")
             else:
                 mon.count("oracle_evals")
         if exp:
@@ -1005,8 +1225,13 @@ def _raw_pair_ops(va, vb):
 
 def _run_kernel(case, mon):
     k = case["kernel"]
-    a, _, keep_a = build_fiber(case["a"])
-    b, _, keep_b = build_fiber(case["b"])
+    a, _, keep_a = build_fiber(case["a"], mon)
+    b, _, keep_b = build_fiber(case["b"], mon)
+    if not (_wellformed(a) and _wellformed(b)):
+        mon.count("skipped:operand-illformed-after-history")     # the operation that broke it has been reported
+        return
+    if a.getSavedPos() or b.getSavedPos():
+        mon.count("stateful_ops:kernel")
     s = case["s"]
     ma, _ = raw_map(a)
     mb, _ = raw_map(b)
